@@ -59,9 +59,9 @@ UNPROVED = [
     "mean_den / var_den for a zero reduced count (NumPy: nan) are outside exact arithmetic; var_den excludes 0-d input",
     "nanmax / nanmin (x.reduce(np.fmax / np.fmin)) and nanmean: reduce_den holds for any associative-commutative op, but "
     "no instance for fmax/fmin over a value type with a NaN token is given; nanmean is differential only",
-    "GCXS: gcxs_recompress_is_coo_calc ties change_compressed_axes + the index-pointer arithmetic to the COO core for "
-    "ndim >= 2 arrays that are the GCXS image (Convert.gcxs_from_coo) of a canonical COO array; gcxs_reduce_den "
-    "is stated for the COO-core model of that path.  GCXS._reduce_return (1-d GCXS, then GCXS.reshape to the kept "
+    "GCXS: gcxs_recompress_is_coo_calc(_any) ties change_compressed_axes + the index-pointer arithmetic to the COO core "
+    "for every well-formed GCXS array of ndim >= 2 (the _any form discharges the from_coo-image hypothesis through C05's "
+    "surjectivity theorem); gcxs_reduce_den is stated for the COO-core model of that path.  GCXS._reduce_return (1-d GCXS, then GCXS.reshape to the kept "
     "extents) and the flatten() of the full-reduction path are modelled through COO reshape (dense-equivalent), "
     "tied by API-level correspondence and C05/C08",
     "gcxs_ok (distinct in-range entries) is a hypothesis of the GCXS theorems, checked per case (gcxs_okb); its "
